@@ -318,4 +318,31 @@ theorem countTail_int (D1 rest : Str) (hd : AllDig D1)
     · rename_i h; simp at h; omega
     · simp [spanP, h1 c r rfl]
 
+theorem countTail_float (D1 D2 rest : Str) (hd : AllDig D1) (hd2 : AllDig D2)
+    (hr : ∀ c r, rest = c :: r → (isDigit c || c == 46) = false) :
+    countTail (D1 ++ 46 :: D2 ++ rest) = D1 ++ 46 :: D2 := by
+  have h1 : ∀ c r, rest = c :: r → isDigit c = false := by
+    intro c r e; have := hr c r e; simp at this; simp [this.1]
+  unfold countTail
+  rw [List.append_assoc, spanP_digits D1 hd _ (by simp [isDigit])]
+  simp only [List.cons_append, spanP_digits D2 hd2 rest h1]
+  simp
+
+theorem countStr_intTxt (neg : Bool) (D1 rest : Str) (hd : AllDig D1) (hne : D1 ≠ [])
+    (hr : ∀ c r, rest = c :: r → (isDigit c || c == 46) = false) :
+    countStr (signTxt neg ++ D1 ++ rest) = signTxt neg ++ D1 := by
+  obtain ⟨c, t, rfl⟩ := List.exists_cons_of_ne_nil hne
+  have hc := (allDig_cons.1 hd).1
+  rw [List.append_assoc, List.cons_append, countStr_signTxt _ _ _ hc, ← List.cons_append,
+    countTail_int _ _ hd hr]
+
+theorem countStr_floatTxt (neg : Bool) (D1 D2 rest : Str) (hd : AllDig D1) (hd2 : AllDig D2) (hne : D1 ≠ [])
+    (hr : ∀ c r, rest = c :: r → (isDigit c || c == 46) = false) :
+    countStr (signTxt neg ++ D1 ++ 46 :: D2 ++ rest) = signTxt neg ++ D1 ++ 46 :: D2 := by
+  obtain ⟨c, t, rfl⟩ := List.exists_cons_of_ne_nil hne
+  have hc := (allDig_cons.1 hd).1
+  have := countTail_float (c :: t) D2 rest hd hd2 hr
+  rw [List.append_assoc, List.append_assoc, List.cons_append, countStr_signTxt _ _ _ hc, ← List.cons_append,
+    ← List.append_assoc (c :: t), this, List.append_assoc]
+
 end Formula
